@@ -8,6 +8,7 @@ import NormModel.Proofs.CharString
 import NormModel.Proofs.Floats
 import NormModel.Proofs.CharEscapes
 import NormModel.Proofs.HexFloats
+import NormModel.Proofs.StringEscapes
 namespace Norm.C11
 open Norm Spec
 
@@ -206,6 +207,25 @@ theorem string_valid (u : Uni) (pre : String) (hp : pre ∈ litPrefixes) (body :
       t.value = some (String.ofList (pre.toList ++ '"' :: (body ++ ['"']))) ∧ t.line = s.line ∧ t.col = s.col ∧
       s'.rest = rest ∧ s'.diags = s.diags :=
   Norm.string_valid u pre hp body hb rest s hr
+
+/-- **A string literal whose body mixes plain characters and escape sequences** (`SUnit`: plain character, simple
+escape other than `\?`, octal escape, hexadecimal escape with any number of digits; an octal/hexadecimal escape is
+not directly followed by a digit of its class) **becomes one STRING token spanning exactly the literal, with no lexical
+diagnostic** — any number of elements, every encoding prefix, at any position, whatever follows. -/
+theorem string_units_valid (u : Uni) (pre : String) (hp : pre ∈ litPrefixes) (xs : List SUnit) (hxs : UnitsOK xs)
+    (rest : List Char) (s : LexSt) (hr : s.rest = pre.toList ++ '"' :: (renderAll xs ++ '"' :: rest)) :
+    ∃ s' t, trySubLexers u s = .ok (some (s', t)) ∧ t.type = "STRING" ∧
+      t.value = some (String.ofList (pre.toList ++ '"' :: (renderAll xs ++ ['"']))) ∧ t.line = s.line ∧ t.col = s.col ∧
+      s'.rest = rest ∧ s'.diags = s.diags :=
+  Norm.string_units_valid u pre hp xs hxs rest s hr
+
+/-- Non-vacuity: the body of `"a\tb\101z\x41;"`. -/
+example : renderAll [.plain 'a', .simple 't', .plain 'b', .octal "101".toList, .plain 'z', .hex "41".toList, .plain ';'] =
+      "a\\tb\\101z\\x41;".toList ∧
+    UnitsOK [.plain 'a', .simple 't', .plain 'b', .octal "101".toList, .plain 'z', .hex "41".toList, .plain ';'] := by
+  refine ⟨by decide, ?_⟩
+  refine ⟨⟨?_, by decide⟩, ⟨by decide, by decide⟩, ⟨?_, by decide⟩, ⟨by decide, by decide, by decide⟩, ⟨?_, by decide⟩,
+    ⟨by decide, by decide, by decide⟩, ⟨?_, by decide⟩, trivial⟩ <;> (unfold OpaqueChar plainChar; decide)
 
 /-- Non-vacuity: `L'x'`, `'\n'`, `u8"hi there"`. -/
 example : ("L" ∈ litPrefixes) ∧ ("u8" ∈ litPrefixes) ∧ simpleEscapes.contains 'n' = true ∧
